@@ -70,8 +70,9 @@ type finding struct {
 	Property string `json:"property"`
 	Status   string `json:"status"`
 	Sub      string `json:"sub"`
-	Sig      string `json:"sig"`
-	What     string `json:"what"`
+	Sig      string   `json:"sig"`
+	Sigs     []string `json:"sigs"`
+	What     string   `json:"what"`
 	Witness  string `json:"witness"`
 }
 
@@ -155,7 +156,12 @@ func loadFindings(prop string) {
 	}
 	for _, f := range ff.Findings {
 		if f.Property == prop && f.Status == "open" {
-			openSigs[f.Sig] = f.ID
+			if f.Sig != "" {
+				openSigs[f.Sig] = f.ID
+			}
+			for _, sg := range f.Sigs {
+				openSigs[sg] = f.ID
+			}
 		}
 	}
 }
